@@ -1368,8 +1368,12 @@ package yqlib
 
 //@ func recursiveDecent
 //@   trusted
+//@   props C04 C01
 //@   modifies results.items // appends every node under the context's nodes, in document order (assumed)
 //@   ensures implies(result == nil, nodeList(results))
+//@   at PushBack: assert @every-node-reached-is-a-result {C04,C01} arg0 == results && arg1 == iface(candidate)
+//@   at splat: assert @the-children-of-a-node-are-visited-by-its-kind {C04,C01} candidate.Kind != AliasNode && (preferences.RecurseArray || candidate.Kind != SequenceNode) && arg1 == preferences.TraversePreferences
+//@   at recursiveDecent: assert @into-the-same-list-with-the-same-preferences {C04,C01} arg0 == results && arg2 == preferences
 
 //@ func createTraversalTree
 //@   props C04
